@@ -35,7 +35,7 @@ def gen(rng, tier):
         for chunk in range(1, 13):
             yield {'k': 'chunks', 'n': n, 'chunk': chunk}
     yield 'EXHAUSTIVE'
-    N = 36 if tier == 'quick' else 600
+    N = G.budget(36) if tier == 'quick' else 600
     for _ in range(N):
         kind = rng.choice(['coring', 'coring', 'filter', 'filter', 'sim'])
         ntr = rng.choice([1, 2, 3, 4])
